@@ -7,6 +7,7 @@ mod rng;
 mod lc;
 mod dp;
 mod srt;
+mod chn;
 
 pub use rng::Rng;
 
@@ -22,6 +23,7 @@ fn area(name: &str) -> Box<dyn Area> {
         "lc" => Box::new(lc::Lc),
         "dp" => Box::new(dp::Dp),
         "srt" => Box::new(srt::Srt),
+        "chn" => Box::new(chn::Chn),
         _ => {
             eprintln!("unknown area {}", name);
             std::process::exit(2)
